@@ -757,6 +757,19 @@ class Guard:
             return None
         return (not v) if self.neg else v
 
+    @property
+    def neutral(self):
+        """conditions produced by macro expansions (tracing `enabled` checks, constant flags)"""
+        r = self.root
+        if r[0] == "const":
+            return True
+        if r[0] == "call":
+            c = Call(self.fn, r[2])
+            return bool(c.exp) or "tracing" in r[1]
+        if r[0] == "discr" and r[1][0] == "call":
+            return "tracing" in r[1][1]
+        return False
+
     def __repr__(self):
         return "<guard %s %s @%d>" % (root_str(self.root), sorted(self.labels) if self.truth is None else self.truth, self.line)
 
@@ -796,6 +809,16 @@ def guards_of(model, fn, site_block, mode="value"):
             r = r[1]
         out.append(Guard(fn, d, ok, [v for v in all_labels if v in real], r, neg))
     return out
+
+
+def bool_target(fn, b, truth):
+    """successor of the two-way boolean switch in block b taken when the condition has `truth`"""
+    t = fn.blocks[b]["t"]
+    assert t[0] == "switch"
+    for v, tb in t[2]:
+        if v == "0":
+            return tb if not truth else t[3]
+    return None
 
 
 def discr_variants(model, guard):
